@@ -37,6 +37,30 @@ class Other:
 		return f"Other({self.x!r})"
 
 
+class Base:
+	"""user class with a subclass: Base() and Sub() are different kinds"""
+	def __init__(self, x=0):
+		self.x = x
+
+	def __eq__(self, other):
+		return type(other) is type(self) and self.x == other.x
+
+	def __hash__(self):
+		return hash((type(self).__name__, self.x))
+
+	def __repr__(self):
+		return f"{type(self).__name__}({self.x!r})"
+
+
+class Sub(Base):
+	pass
+
+
+class DecSub(Decimal):
+	def __repr__(self):
+		return f"DecSub({Decimal.__str__(self)!r})"
+
+
 class MyInt(int):
 	def __repr__(self):
 		return f"MyInt({int(self)})"
